@@ -124,8 +124,12 @@ def gen_stream(rng, thorough):
     """list of chunks (bytes) the SMSC sends after bind_resp, whether it then closes, the session default alphabet"""
     chunks, kinds = [], []
     seq = 100
+    big = rng.random() < 0.2        # an SMSC that numbers its requests in the upper half of the 32-bit range (any value is to be echoed)
     for _ in range(rng.choice([1, 1, 2, 3, 5])):
         seq += 1
+        if big:
+            seq = rng.choice([0x80000000, 0x9ABCDEF0, 0xFFFFFFFE, 0xFFFFFFFF, 0x7FFFFFFF]) - rng.randint(0, 3) * (seq % 7)
+            seq = max(1, min(seq, 0xFFFFFFFF))
         k = rng.random()
         if k < 0.12:
             # UDHI set with a short or inconsistent user data header
